@@ -45,7 +45,7 @@ Definition tracker_state (t : tracker) : state :=
             else if found_active t then SOngoing else SNone.
 
 (* overwrite: take the other tracker, keep own dimension *)
-Definition overwrite (t other : tracker) : tracker :=
+Definition tr_overwrite (t other : tracker) : tracker :=
   with_value other (convert (vdim (t_value t)) (t_value other)).
 
 Definition v3maxabs (a b : vec3) : vec3 :=
@@ -53,7 +53,7 @@ Definition v3maxabs (a b : vec3) : vec3 :=
   let pick (x y : Q) := if qltb (qabs x) (qabs y) then y else x in
   (pick ax bx, pick ay by_, pick az bz).
 
-Definition combine (t other : tracker) (acc : accumulation) : tracker :=
+Definition tr_combine (t other : tracker) (acc : accumulation) : tracker :=
   let accumulated :=
     match acc with
     | MaxAbs => v3maxabs (as3 (t_value t)) (as3 (t_value other))
